@@ -54,6 +54,7 @@ type Case struct {
 	QueryText string            `json:"query_text,omitempty"` // if set, used verbatim instead of Query/Frags
 	Wide      bool              `json:"wide,omitempty"`       // a hop below a list of hundreds of objects (oracle only: too large for the model evaluation)
 	Mutation  bool              `json:"mutation,omitempty"`   // the selection set is run as a mutation (the services mirror their Query fields on Mutation)
+	NumSeed   uint64            `json:"num_seed,omitempty"`   // != 0: the numeric-extremes scenario (numbers.go) with this seed instead of a generated federation
 }
 
 // ---- universe: all fields of all types, then a partition over services ----
